@@ -80,11 +80,13 @@ UNIT = {
                  '/PieceInfo likewise (the copy of the page names itself, the annotation points back at it, its parent lists it); every reference resolves '
                  'in the new document. ExtGState entries (held by value in Resources) are compared by content + inner references: see '
                  'findings/extgstate_copied_per_page.md'},
-    # candidate finding, NOT enabled (fails on /repo HEAD ebb87a5; enable together with the known_findings.txt line proposed in
-    # findings/extgstate_copied_per_page.md if the maintainer accepts it):
-    # {'name': 'import_shared_extgstate_identity', 'code': 'findings/extgstate_copied_per_page_repro.rs', 'place': 'pdf/tests/verif_extgstate_shared.rs',
-    #  'fn': 'PageBuilder::clone_page', 'props': ['C20'], 'tier': 'quick', 'bound': 'one document, two pages sharing one indirect ExtGState',
-    #  'contract': 'the shared graphics state is ONE indirect object of the new document, named by both pages'},
+    # KNOWN FINDING (known_findings.txt: importer/PageBuilder::clone_page/import_shared_extgstate_identity; findings/extgstate_copied_per_page.md):
+    # fails on /repo -- Resources holds ExtGState (and ColorSpace) entries by value, the shared indirect graphics state is written inline per page.
+    # Its own test file, so that ONLY this identity check lives under that obligation id.
+    {'name': 'import_shared_extgstate_identity', 'code': 'findings/extgstate_copied_per_page_repro.rs', 'place': 'pdf/tests/verif_extgstate_shared.rs',
+     'fn': 'PageBuilder::clone_page', 'props': ['C20'], 'tier': 'quick', 'timeout': 900,
+     'bound': 'one 13-object document, two pages sharing one indirect ExtGState (10 0 R), imported through ONE Importer, built, saved, reloaded',
+     'contract': 'the shared graphics state is ONE indirect object of the new document, named by both pages (C20: shared source objects are copied once)'},
  ]},
  'items': {
   # ---------------------------------------------------------------- data types
